@@ -5,24 +5,27 @@ From ColumnV Require Import GenConsts Bytes Store StoreProofs StoreProofs3 Store
 Local Open Scope N_scope.
 
 Definition KeyOK (s : coll) : Prop :=
-  ∀ p col, pk s = Some p → cols s !! p = Some col → cmerges col = false ∧ KeyBij (cells col) (keys s).
+  ∀ p col, pk s = Some p → cols s !! p = Some col →
+    cmerges col = false ∧ (∀ v, ccast col v = v) ∧ KeyBij (cells col) (keys s).
 
 (* the key table tracks the cells exactly as a non-merging column applies them *)
 Lemma key_fold_cells col ops keys :
-  cmerges col = false →
+  cmerges col = false → (∀ v, ccast col v = v) →
   fst (foldl key_step (cells col, keys) ops) = cells (fst (col_apply col ops)).
 Proof.
-  revert col keys. induction ops as [|o r IH]; intros col keys M; [done|].
+  revert col keys. induction ops as [|o r IH]; intros col keys M Hid; [done|].
   cbn [foldl col_apply]. destruct (col_step col o) as [c1 o'] eqn:E1.
   destruct (col_apply c1 r) as [c2 r'] eqn:E2. cbn [fst].
   assert (M1 : cmerges c1 = false).
   { pose proof (col_step_params col o) as P. rewrite E1 in P. cbn in P. destruct P as (-> & _). exact M. }
+  assert (Hid1 : ∀ v, ccast c1 v = v).
+  { pose proof (col_step_params col o) as P. rewrite E1 in P. cbn in P. destruct P as (_ & _ & _ & ->). exact Hid. }
   assert (Hc1 : fst (key_step (cells col, keys) o) = cells c1).
-  { unfold col_step in E1. injection E1 as <- _. unfold key_step, cell_step; cbn [set_cells cells fst]. rewrite M.
+  { unfold col_step in E1. injection E1 as <- _. unfold key_step, cell_step; cbn [set_cells cells fst]. rewrite M, ?Hid.
     destruct (ok o); cbn [fst]; try done;
       (destruct (cells col !! ooff o) as [v|] eqn:Ev; [by rewrite insert_id|by rewrite delete_notin]). }
   destruct (key_step (cells col, keys) o) as [cs' keys'] eqn:Ek. cbn [fst] in Hc1. subst cs'.
-  specialize (IH c1 keys' M1). rewrite E2 in IH. exact IH.
+  specialize (IH c1 keys' M1 Hid1). rewrite E2 in IH. exact IH.
 Qed.
 
 (* one block: admissible key operations (no put gives a row a key another row holds, evaluated in
@@ -34,15 +37,15 @@ Theorem commit_block_key_ok s t b p col :
   KeyOK (commit_block s t b).
 Proof.
   intros Hk Hp Hc Hops Hr p' col' Hp' Hc'. rewrite cb_pk in Hp'. rewrite Hp in Hp'. injection Hp' as <-.
-  destruct (Hk p col Hp Hc) as [M HB].
+  destruct (Hk p col Hp Hc) as (M & Hid & HB).
   set (ops := filter (λ o, in_blk b o = true) (buf t p)) in *.
   (* after the column's own operations *)
   pose proof (key_apply_bij ops (cells col) (keys s) HB Hops) as HB1.
-  rewrite (key_fold_cells col ops (keys s) M) in HB1.
+  rewrite (key_fold_cells col ops (keys s) M Hid) in HB1.
   (* the column as commit_block computes it *)
   assert (Hcol1 : ((fst <$> cb_upd s t b) : gmap N column) !! p = Some (fst (col_apply col ops))).
   { unfold cb_upd. by rewrite lookup_fmap, map_lookup_imap, Hc. }
-  destruct (col_apply_params col ops) as (A1 & A2 & A3).
+  destruct (col_apply_params col ops) as (A1 & A2 & A3 & A4).
   (* then the markers: deletes only, always admissible *)
   assert (Hm : ∀ cs ks l, Forall (λ o, ok o = KInsert ∨ ok o = KDelete) l → key_ops_ok cs ks l).
   { intros cs ks l. revert cs ks. induction l as [|o r IH]; intros cs ks Hf; [done|]. inversion Hf as [|? ? Ho Hr']; subst.
@@ -50,10 +53,10 @@ Proof.
   assert (Hmarks : Forall (λ o, ok o = KInsert ∨ ok o = KDelete) (marks_block t b)).
   { unfold marks_block. apply Forall_forall. intros o [_ Ho]%elem_of_list_filter. unfold wf_row in Hr. rewrite Forall_forall in Hr. by apply Hr. }
   pose proof (key_apply_bij (marks_block t b) _ _ HB1 (Hm _ _ _ Hmarks)) as HB2.
-  rewrite (key_fold_cells (fst (col_apply col ops)) (marks_block t b) _ ltac:(by rewrite A1)) in HB2.
+  rewrite (key_fold_cells (fst (col_apply col ops)) (marks_block t b) _ ltac:(by rewrite A1) ltac:(by rewrite A4)) in HB2.
   (* assemble *)
   rewrite cb_cols in Hc'. rewrite lookup_fmap, Hcol1 in Hc'. cbn in Hc'. injection Hc' as <-.
-  destruct (col_apply_params (fst (col_apply col ops)) (marks_block t b)) as (B1 & _ & _).
-  split; [by rewrite B1, A1|].
+  destruct (col_apply_params (fst (col_apply col ops)) (marks_block t b)) as (B1 & _ & _ & B4).
+  split; [by rewrite B1, A1|]. split; [by rewrite B4, A4|].
   rewrite cb_keys, Hp, Hcol1. unfold cb_keys1. rewrite Hp, Hc. exact HB2.
 Qed.
